@@ -52,6 +52,13 @@ def _memoize_order(ck, R):
     ok2 = bool(asg) and bool(pm) and all(mz.cfg.must_pass(mz.nodes_all(asg), i) for i in mz.nodes_all(pm))
     ck.ob(R, mz.key(None, "key-before-metadata"), ok2, "content key recorded before put_memento" if ok2 else
           "put_memento can run before the content key is recorded", mz.where())
+    # the memory cache is written through only once the store has accepted the result: a failed
+    # write must not leave the cache (or its weak references) claiming the call is memoized
+    cputs = [c for c in mz.calls("put") if A.dotted(A.call_recv(c)) == "self._memory_cache"]
+    okc = bool(cputs) and bool(pm) and all(mz.cfg.must_pass(mz.nodes_all(pm), i) for i in mz.nodes_all(cputs))
+    ck.ob(R, mz.key(None, "cache-after-store"), okc, "the cache is filled after the memento was written" if okc else
+          "memoize fills the memory cache before the store write: when that write fails (disk full) is_memoized keeps answering True from the "
+          "cache / its weak reference, so the result is never written again (recomputed forever with a small cache, never persisted with a large one)", mz.where())
     # put_memento is the last persistent step (nothing is written after the memento is visible)
     after = set()
     for i in mz.nodes_all(pm):
